@@ -481,6 +481,14 @@ def c15Eval : PropEval := fun i pre post =>
     let w := C15.weight pre
     let w' := C15.weight post
     if w' ≤ C15.growthBound i w then none
+    else if i == .code .rand &&
+        (match pre.int with
+         | n :: _ => w' > w + 64 * (min (i32Abs n).toInt.natAbs (i32Abs pre.cfg.maxPointsRand).toInt.natAbs) + 16
+         | [] => true) then
+      -- NOT the recorded finding K05 (work sized by the operand INSIDE the configured maximum): the item is larger
+      -- than min(|operand|, |configured maximum|) points allow
+      some ("CODE.RAND grew the state from weight " ++ toString w ++ " to " ++ toString w' ++
+        " although min(|operand|, |max_points_in_random_expressions|) bounds the item")
     else if C15.sizeOperand i then
       some ("[K05] the work of " ++ i.str ++ " is sized by an INTEGER operand: state weight " ++ toString w ++ " -> " ++ toString w')
     else some ("state weight " ++ toString w ++ " -> " ++ toString w' ++ " in one step")
